@@ -37,7 +37,7 @@ def from_kelvin(scale, k):
 
 
 def bucket(x):
-    x = float(x)
+    x = core.sf(x)
     if x == 0:
         return "0"
     s = "-" if x < 0 else "+"
@@ -86,10 +86,10 @@ def run(ctx):
         if abs(g - expected) > tol:
             key = "prefix-on-target" if dst_pfx is not None else "prefix-on-source" if src_pfx is not None else "unprefixed"
             ctx.violation(f"C10:wrong-value:{key}",
-                          f"({mag!r} * {su}).in_unit({du}) = {got.magnitude!r}, exact {float(expected)!r}",
-                          {"src": [src_scale, src_pfx], "dst": [dst_scale, dst_pfx], "mag": repr(mag), "got": repr(got.magnitude), "exact": float(expected)})
+                          f"({mag!r} * {su}).in_unit({du}) = {got.magnitude!r}, exact {core.sf(expected)!r}",
+                          {"src": [src_scale, src_pfx], "dst": [dst_scale, dst_pfx], "mag": repr(mag), "got": repr(got.magnitude), "exact": core.sf(expected)})
         if len(ctx.samples) < 6 and rng.random() < 0.002:
-            ctx.sample(f"({mag!r} * {su}).in_unit({du}) = {got.magnitude!r}  (exact {float(expected)!r})")
+            ctx.sample(f"({mag!r} * {su}).in_unit({du}) = {got.magnitude!r}  (exact {core.sf(expected)!r})")
         return got
 
     pairs = [(a, b) for a in SCALES for b in SCALES if a != b]
@@ -117,7 +117,7 @@ def run(ctx):
     for _ in range(n_rel):
         a, b, c = rng.choice(SCALES), rng.choice(SCALES), rng.choice(SCALES)
         pa, pb = rng.choice([None, None, rng.choice(prefix_names)]), rng.choice([None, None, rng.choice(prefix_names)])
-        mag = rng.choice([rng.choice(fixed), float(rng.uniform(-500, 5000)), rng.randint(-500, 5000)])
+        mag = rng.choice([rng.choice(fixed), core.sf(rng.uniform(-500, 5000)), rng.randint(-500, 5000)])
         ua, ub, uc = unit(a, pa), unit(b, pb), unit(c, None)
         try:
             q = mag * ua
@@ -148,9 +148,9 @@ def run(ctx):
         exp_d = oracle.F(d) * STEP[a] / STEP[b]
         bigd = max(abs(to_kelvin(a, oracle.F(mag))), K0)
         if abs((oracle.F(x2) - oracle.F(x1)) - exp_d) > bigd * Fraction(4, 10**9) / STEP[b] + abs(exp_d) * Fraction(1, 10**9):
-            ctx.violation("C10:difference-not-scaled", f"({mag}+{d}) {a} - {mag} {a} in {b}: {x2!r}-{x1!r}, exact {float(exp_d)!r}", {})
+            ctx.violation("C10:difference-not-scaled", f"({mag}+{d}) {a} - {mag} {a} in {b}: {x2!r}-{x1!r}, exact {core.sf(exp_d)!r}", {})
         # comparisons agree with kelvin values
-        mag2 = rng.choice([rng.choice(fixed), float(rng.uniform(-500, 5000))])
+        mag2 = rng.choice([rng.choice(fixed), core.sf(rng.uniform(-500, 5000))])
         q1, q2 = mag * ua, mag2 * ub
         k1, k2 = to_kelvin(a, oracle.F(mag) * pval(pa)), to_kelvin(b, oracle.F(mag2) * pval(pb))
         if abs(k1 - k2) <= max(abs(k1), abs(k2), K0) * Fraction(1, 10**9):
@@ -164,14 +164,14 @@ def run(ctx):
             continue
         if lt != (k1 < k2) or gt != (k1 > k2) or eq:
             ctx.violation("C10:comparison-disagrees-with-kelvin",
-                          f"{mag!r} {ua} vs {mag2!r} {ub}: <:{lt} >:{gt} ==:{eq}; kelvin {float(k1)!r} vs {float(k2)!r}",
+                          f"{mag!r} {ua} vs {mag2!r} {ub}: <:{lt} >:{gt} ==:{eq}; kelvin {core.sf(k1)!r} vs {core.sf(k2)!r}",
                           {"a": [repr(mag), a, pa], "b": [repr(mag2), b, pb]})
     # absolute zero maps to absolute zero
     for a in SCALES:
         for b in SCALES:
             z = from_kelvin(a, Fraction(0))
-            got = (float(z) * U[a]).in_unit(U[b]).magnitude
+            got = (core.sf(z) * U[a]).in_unit(U[b]).magnitude
             ctx.count("relations/absolute_zero")
             if abs(oracle.F(got) - from_kelvin(b, Fraction(0))) > Fraction(1, 10**6):
-                ctx.violation("C10:absolute-zero", f"absolute zero {float(z)} {a} -> {b} = {got!r}", {})
+                ctx.violation("C10:absolute-zero", f"absolute zero {core.sf(z)} {a} -> {b} = {got!r}", {})
     ctx.require("evaluations", 1000)
